@@ -1,7 +1,7 @@
 """Rules anchored in src/store.rs and src/ttl.rs: C03 (TTL visibility), C05 (reclaim of expired
 entries), C09 (conditional writes), C04 (nothing is lost below capacity) and the store-level
 parts of C02 / C18 (same-key lookups, conflict isolation)."""
-from lib import *
+from cachelib import *
 
 SM = "store::ShardedMap"
 EM = "ttl::ExpirationMap"
@@ -260,10 +260,11 @@ def check_ttl_plumbing(rep, fl):
     ttl = V("ttl")
     exp_l = None
     defs = []
-    for l, name in tu.local_name.items():
+    # the deadline variable (or the result slot of a helper that computes it): defined only by Time::now* calls
+    for l in sorted(tu.defs):
         ds = tu.defs.get(l, [])
         es = [norm(tu.def_expr(a, b, True)) for a, b in ds]
-        if es and all(is_call(e, "Time::now") or is_call(e, "Time::now_with_expiration") for e in es):
+        if len(es) == 2 and all(is_call(e, "Time::now") or is_call(e, "Time::now_with_expiration") for e in es):
             exp_l, defs = l, list(zip(ds, es))
     ok = exp_l is not None and len(defs) == 2
     if ok:
@@ -278,14 +279,31 @@ def check_ttl_plumbing(rep, fl):
               "the deadline of an insert is no longer derived from its ttl parameter")
     if exp_l is None:
         return
-    expv = V(tu.local_name[exp_l])
-    # flows into store.try_update and into Item::new
+    # the deadline value: that local, or a named variable that is a plain copy of it (`let expiration = helper(ttl)`)
+    slot = tu.place_expr({"l": exp_l, "p": []}, False)
+    names = {norm(slot)}
+    for l, name in tu.local_name.items():
+        ds = tu.defs.get(l, [])
+        if len(ds) == 1 and norm(tu.def_expr(ds[0][0], ds[0][1], False)) == norm(slot):
+            names.add(V(name))
+
+    def is_deadline(e):
+        e = norm(e)
+        return e in names or (e[0] == "tmp" and norm(tu.expand(e)) in names)
+    # flows into store.try_update and into the queued New item
     su = calls_to(tu, SM + "::try_update")
-    ok = len(su) == 1 and norm(tu.call_args(su[0][1], expand_vars=False)[4]) == expv
+    ok = len(su) == 1 and is_deadline(tu.call_args(su[0][1], expand_vars=False)[4])
     rep.check(ok, "R03.4", fl, tu, "store.try_update(.., expiration)", "the new deadline is handed to store.try_update", "store.try_update does not receive the new deadline")
-    news = calls_to(tu, fl.item + "::new")
-    ok = len(news) >= 1 and all(norm(tu.call_args(t, expand_vars=False)[4]) == expv for _, t in news)
-    rep.check(ok, "R03.4", fl, tu, "Item::new(.., expiration)", "a queued New item carries the deadline", "Item::new does not receive the deadline")
+    news = []
+    for bi, t in calls_to(tu, fl.item + "::new"):
+        cf = ctor_fields(facts, tu.call_expr(t, False))
+        if cf is not None:
+            news.append(cf[1].get("expiration"))
+    for bi, si, st, e in agg_nodes(tu, fl.item.split("::")[-1]):
+        if e[2].endswith("Item::New"):
+            news.append(agg_fields(norm(tu.rvalue_expr(st["rv"], False))).get("expiration"))
+    ok = len(news) >= 1 and all(x is not None and is_deadline(x) for x in news)
+    rep.check(ok, "R03.4", fl, tu, "Item::new(.., expiration)", "a queued New item carries the deadline", "the queued New item does not receive the deadline")
     # callers: insert / insert_if_present pass ZERO, insert_with_ttl passes its parameter
     ti = fl.cache_fn("try_insert_in")
     c = calls_to(ti, fl.cache + "::try_update")
@@ -483,8 +501,8 @@ def _store_writes_all(rep, fl):
 
 def check_buckets(rep, fl):
     facts = fl.facts
-    t = V("t")
     sb = facts.body("ttl::storage_bucket")
+    t = V(sb.local_name.get(1, "arg1"))
     e = norm(return_expr(sb))
     want = norm(("cast", "i64", ("bin", "Add", call(TIME + "::unix", t), ("const", 1, "u64"))))
     rep.check(e == want, "R05.1", fl, sb, "storage_bucket", "storage_bucket(t) = unix(t) + 1", "storage_bucket(t) = %s" % show(e))
